@@ -44,6 +44,17 @@ claim("C02", "Objective",
       "Sampled (seeded), not exhaustive, over the feature product; lattice sizes bounded by 32-bit exactness; D1, D2, D6, D7, D8, D13 of DESIGN §4. Trusted: TLC, Fraction arithmetic for sums of per-block rationals.",
       "DESIGN.md §5 C02")
 
+claim("C03", "Objective",
+      "TLA+ spec Objective.tla: exact per-block residuals/clps emitted by TLC; expected result arrays derived as functions of coordinates and labels; real optimize() results (one evaluation, x = x0) compared by .sel lookups",
+      "Seeded lattice schemes incl. adversarial dataset labels (prefixes, substrings, coinciding concatenations), non-square shapes, both storage orders, noisy data and linked groups with single-dataset indices; every result variable (data, residual, fitted_data, weight, weighted_residual, clp, matrix, global_matrix) is looked up by coordinate value and label and compared with the exact value; constrained clps == 0.0, relation targets to 4 ulp.",
+      "Sampled not exhaustive; D8, D11, D13; max_nfev=1 keeps x at x0. Trusted: TLC, Fraction arithmetic.",
+      "DESIGN.md §5 C03")
+claim("C13", "Objective",
+      "TLA+ spec Objective.tla counters (points, penalties, reduced clps) and exact penalty vector checked by TLC; Result statistics of lattice optimisations compared exactly; spec-derived monitor (bound to TLC on every lattice case) applied to real noisy multi-iteration fits incl. covariance / standard-error relations and cost = objective at the optimum",
+      "Counters exact and chi-square/cost/reduced chi-square/rmse to 1e-9 on seeded lattice schemes; the same relations plus pseudo-inverse identities, standard errors, additional_penalty and cost re-evaluated at the optimised parameters on seeded real fits with all three methods.",
+      "Pseudo-inverse identities are floating-point relations evaluated by the monitor, not by TLC (DESIGN §6); D11. Trusted: TLC, Fraction, numpy svd/eigvalsh in the monitor.",
+      "DESIGN.md §5 C13")
+
 ENGINES = [
     {"name": "Objective", "path": "spec/Objective.tla", "serves_properties": ["C02", "C03", "C13", "C14"], "kind_free_text": "TLA+ staged exact pipeline (Objective.tla, ObjectiveCases.tla) over LinAlg.tla; harness/objective.py, lattice.py, c02.py, c03.py, c13.py, c14.py"},
     {"name": "ClpLink", "path": "spec/ClpLink.tla", "serves_properties": ["C09", "C02"], "kind_free_text": "TLA+ alignment state machine + ClpLinkEmit; harness/c09.py, harness/lattice.py"},
